@@ -73,11 +73,31 @@ def mon_key(m):
     return "other"
 
 
+def live_handle(ctx):
+    """the clause without a kill: every lookup after an acknowledged store returns that VAA intact (lookups before the first store, overwrites, sizes across
+    badger's 1 MiB value-log threshold, clean re-opens), judged against the harness's own record"""
+    rc, out, trace = core.harness_pkg(ctx, "db", "^TestVerifC16Live$", timeout=1200)
+    rows = [r for r in core.read_jsonl(trace) if r.get("k") == "c16live"]
+    if rc != 0 or not rows:
+        ctx.problem("correspondence", "go harness C16 (one live handle)", out[-1500:])
+        return
+    r = rows[0]
+    ctx.cov["live_handle"] = {k: v for k, v in r.items() if k not in ("k", "mon")}
+    seen = set()
+    for m in r.get("mon") or []:
+        k = "live:" + ("never-stored" if "never stored" in m else "differs" if "differ" in m else "lost" if "had returned success" in m else "other")
+        if k in seen:
+            continue
+        seen.add(k)
+        ctx.problem("monitor", m, "observed on the real store (one handle, no kill)", concrete=True, replay={"monitor": m, "seed": ctx.seed, "test": "TestVerifC16Live"}, key=k)
+
+
 def run(ctx):
     st = core.run_extract(ctx, ["db_store", "db_keys", "vaa_consts"])
     coq_prove_retry(ctx, "C16", extra_targets=["model/CrashKVRun.vo"])
     if ctx.tier == "thorough":
         core.coq_thorough_audit(ctx, "C16")
+    live_handle(ctx)
     rc, out, trace = core.harness_pkg(ctx, "db", "^TestVerifC16$", timeout=3000)
     rows = core.read_jsonl(trace)
     cyc = [r for r in rows if r.get("k") == "cycle"]
